@@ -3,20 +3,32 @@
 // Lock/channel-level simulation of the real (instrumented) p2p/net/connmgr package; only its
 // exported API is used.
 //
+// FINDING on the unchanged tree (genuine, confirmed with a debug print in a private overlay; replay:
+// harness/c14/finding-entry-forgotten.replay.json; classes C14/entry-forgotten and, when the peer is
+// re-connected before the next check, C14/peer-conns/forgotten; later symptom C14/conn-count/too-high):
+// getConnsToClose prunes an early-tag ("temp") candidate with delete(s.peers, inf.id) (connmgr.go:526)
+// without checking that the candidate is still the entry stored under that id. The background loop calls
+// cm.trim() without the trim mutex, so it can overlap a TrimOpenConns call; both collect the same temp
+// entry E1; the first prunes it; Connected(p, c) (or TagPeer) then creates a fresh entry E2; the second
+// trim reaches its stale E1 (still temp, no connections) and deletes E2 by id. The manager forgets a
+// connection it was told about: GetTagInfo(p) = nil, no trim (not even ForceTrim) can select it, and
+// its Disconnected finds no entry and does not decrement connCount (drift for ever). With
+// `if s.peers[inf.id] == inf { delete(...) }` 124 000 runs are clean.
+//
 // MUTATION LOG (sensitivity; each mutation applied alone to a private copy of the instrumented
 // overlay, never to /repo; 6 workers, budget 25-40 s; "runs" = runs executed by all workers until
 // every worker had its first violation minimised):
 //   required by DESIGN.md / the task
-//   M1  getConnsToClose: grace comparison inverted (!firstSeen.After)      -> closed-in-grace, left-above-low, lower-valued-kept (1st run of every worker)
-//   M2  getConnsToClose: protected check dropped                           -> closed-protected/TrimOpenConns and /background-trim (17 runs)
+//   M1  getConnsToClose: grace comparison inverted (!firstSeen.After)      -> closed-in-grace, left-above-low, lower-valued-kept, entry-forgotten (1st run of every worker)
+//   M2  getConnsToClose: protected check dropped                           -> closed-protected/TrimOpenConns and /background-trim (16 runs)
 //   M3  SortByValueAndStreams: left.value > right.value                    -> lower-valued-kept/TrimOpenConns and /background-trim (9 runs)
-//   M4a Disconnected: connCount.Add(-1) removed                            -> conn-count (7 runs)
-//   M4b Disconnected: extra connCount.Add(-1) for an untracked connection  -> conn-count (8 runs)
-//   M5  UpsertTag: value not updated                                       -> tag-total/value (7 runs)
-//   M6  getConnsToCloseEmergency: protected peers not skipped in phase 1   -> forced-protected-before-unprotected (25 runs)
-//   M7  getConnsToClose: target = ncandidates-low-1                        -> left-above-low/TrimOpenConns and /background-trim (14 runs)
+//   M4a Disconnected: connCount.Add(-1) removed                            -> conn-count/too-high (7 runs)
+//   M4b Disconnected: extra connCount.Add(-1) for an untracked connection  -> conn-count/too-low (8 runs)
+//   M5  UpsertTag: value not updated                                       -> tag-total/value (6 runs)
+//   M6  getConnsToCloseEmergency: protected peers not skipped in phase 1   -> forced-protected-before-unprotected (22 runs)
+//   M7  getConnsToClose: target = ncandidates-low-1                        -> left-above-low/TrimOpenConns and /background-trim (11 runs)
 //   additional
-//   M8  Connected: duplicate notification counted                          -> conn-count
+//   M8  Connected: duplicate notification counted                          -> conn-count/too-high
 //   M9  decayer: bump not added to value                                   -> tag-total/value
 //   M10 Connected: firstSeen not refreshed when an early-tag entry converts-> first-seen
 //   M11 getConnsToClose: grace period halved                               -> closed-in-grace
@@ -27,12 +39,19 @@
 //   M19 Protect: replaces the tag set / M22 Unprotect: leaves an empty set -> protect-result
 //   M20 getConnsToClose: one connection per selected peer                  -> left-above-low
 //   MC2 Connected: connCount load / scheduling point / store (visible under concurrency only)
-//                                                                          -> conn-count/sampled, conn-count (60 runs)
+//                                                                          -> conn-count/sampled, conn-count/too-low (about 100 runs)
 //   MC4 TagPeer: value read, segment lock released, value written (concurrency only: races with the decayer)
-//                                                                          -> tag-total/value (about 700 runs)
+//                                                                          -> tag-total/value (about 500-700 runs)
 //   not caught, equivalent mutants: M12 "count <= low" early return removed, M15 "ncandidates < low" early
 //   return removed (target <= 0 in both cases, so nothing is selected anyway).
-//   On the unchanged tree: no violation (see the report / evidence for the run counts).
+//   Unchanged tree: only the finding above (about 1 run in 2 000-5 000); nothing else in >150 000 runs.
+//
+// Not part of C14 but recorded (probe forcetrim-left-above-low-overall; C14_FORCETRIM_DOC=1 turns it into
+// class C14/doc/forcetrim-left-above-low): ForceTrim's documentation promises "down to the low watermark"
+// and "if after closing all unprotected connections we still have more than lowWaterMark connections,
+// it'll close protected connections"; getConnsToCloseEmergency compares len(selected) with the already
+// decremented target (connmgr.go:425), e.g. low=4, protected p0 with 7 connections, unprotected p1 (1) and
+// p2 (2): ForceTrim closes 3 and leaves 7.
 //
 // Reading of the statement (weaker reading wherever it is ambiguous, guide rule 1/6):
 //   - "connection count" / "connections of a peer" are the connections the manager was told about
